@@ -59,6 +59,28 @@ Theorem C32_restart_keeps_queue : forall cfg s a e v,
 Proof. exact restart_keeps_queue. Qed.
 Print Assumptions C32_restart_keeps_queue.
 
+(* the tun reader interleaved with the UDP reader: an inside packet that goes through GetOrHandshake + cachePacket
+   while continueHandshake is between the receipt of the stage 2 and Complete (it holds the HandshakeHostInfo lock;
+   cachePacket runs under the manager's lock) belongs to the queue that is replayed: every packet cachePacket
+   stored is sent exactly once, in order, if the firewall allows it; one that found the queue full is dropped *)
+Theorem C32_release_interleaved : forall cfg s a e p,
+  mget a (pend s) = Some e -> p_ready e = true ->
+  let r := rstep cfg (RCompleteQ a p) s in
+  let q := if (N.of_nat (length (p_store e)) <? maxCachedPackets)%N then p_store e ++ [p] else p_store e in
+  snd r = map (fun p => RData (k_tag p)) (filter (fw_allows cfg) q) /\
+  mget a (pend (fst r)) = None /\ ~ In (p_id e) (ridx (fst r)).
+Proof. exact release_interleaved. Qed.
+Print Assumptions C32_release_interleaved.
+
+(* the same interleaving with a wrong responder: the packet moves to the new attempt with the rest of the queue *)
+Theorem C32_restart_interleaved : forall cfg s a e v p,
+  mget a (pend s) = Some e -> p_ready e = true ->
+  let r := rstep cfg (RWrongQ a v p) s in
+  let q := if (N.of_nat (length (p_store e)) <? maxCachedPackets)%N then p_store e ++ [p] else p_store e in
+  snd r = [] /\ exists e', mget a (pend (fst r)) = Some e' /\ p_store e' = q /\ p_counter e' = 0.
+Proof. exact restart_interleaved. Qed.
+Print Assumptions C32_restart_interleaved.
+
 (* ---- attempts ---- *)
 
 (* StartHandshake: counter 0, the timer armed with tryInterval *)
